@@ -12,8 +12,10 @@
 mod case;
 mod driver;
 mod expr;
+mod gen;
 mod lin;
 mod model;
+mod modelcheck;
 mod oracle;
 mod prng;
 mod prop;
